@@ -7,7 +7,8 @@ from .. import core, frame, fault
 from ..decomp import decompose
 
 PROP = "C08"
-UPDATE_PHASES = ("tmp-create", "tmp-write", "tmp-rename", "rename", "tmp-fsync")
+UPDATE_PHASES = ("tmp-create", "tmp-write", "tmp-rename", "rename", "tmp-fsync", "tmp-fchmod", "tmp-chmod", "tmp-ftruncate", "tmp-fchown",
+                 "tmp-link", "tmp-pwrite", "tmp-utimensat")
 
 
 def projects(tier, seed):
@@ -42,7 +43,7 @@ def plan(proj, ops, tier, rnd):
     writes = [o for o in upd if o["kind"] == "write"]
     pick = upd if len(upd) <= cap else [o for o in upd if o["kind"] != "write"] + rnd.sample(writes, min(cap, len(writes)))
     for o in pick:
-        errs = {"openw": ["EIO", "ENOSPC", "EACCES"], "write": ["EIO", "ENOSPC"], "rename": ["EXDEV", "EACCES", "EIO"], "fsync": ["EIO"]}.get(o["kind"], [])
+        errs = {"openw": ["EIO", "ENOSPC", "EACCES"], "write": ["EIO", "ENOSPC"], "rename": ["EXDEV", "EACCES", "EIO"], "fsync": ["EIO"]}.get(o["kind"], ["EPERM", "EIO"])
         for e in errs:
             inj.append(("single:%s@%d" % (e, o["n"]), "n=%d,act=errno:%d" % (o["n"], fault.ERRNO[e]), "single"))
         if o["kind"] == "write" and o["bytes"] > 1:
@@ -119,6 +120,8 @@ def work(job):
                 os.makedirs(tmpdir)
             elif label == "tmpdir-is-the-source-dir":
                 tmpdir = os.path.join(box.proj, "src")
+            elif label == "tmpdir-empty-string":
+                tmpdir = ""           # TMPDIR= (set but empty): std::env::temp_dir() is then the empty path, i.e. the current directory
             elif label == "tmpdir-relative":
                 tmpdir = "reltmp"
                 os.makedirs(os.path.join(box.proj, "reltmp"))
@@ -130,12 +133,30 @@ def work(job):
                 return res
             tmpdir = os.path.join(other, "vf-xdev-%d-%s" % (os.getpid(), os.path.basename(box.top)))
             os.makedirs(tmpdir)
+        hook = None
+        if kind == "concurrent-save":
+            # another process (an editor, a formatter) saves one of the sources while breadlog is busy with it: the run is held at
+            # the creation of that file's scratch copy (delay) and the file is rewritten meanwhile. No operation of breadlog fails.
+            victim = label.split(":", 1)[1]
+
+            def hook():
+                pth = os.path.join(box.proj, victim)
+                with open(pth, "ab") as f:
+                    f.write(b"// saved by somebody else while breadlog was running\n")
         try:
             pre = set(core.snapshot(box.root, content=False))       # what the harness itself put there
-            rec = core.run_breadlog(built, box, cfg, rules=rules, shim=True, tmpdir=tmpdir, timeout=120)
+            rec = core.run_breadlog(built, box, cfg, rules=rules, shim=True, tmpdir=tmpdir, timeout=120, on_first_fire=hook)
             if exdev:
                 box_tmp_left = sorted(os.listdir(tmpdir))
-            v, fired, fired_fail, states = judge(proj, rec, box, cfg, built, expected, pre)
+            jproj = proj
+            if kind == "concurrent-save":
+                # whichever version the tool kept (its own or the other process's), count its tokens against that version
+                now = box.read(victim)
+                saved = proj.files[victim] + b"// saved by somebody else while breadlog was running\n"
+                if decompose(proj.files[victim], now) is None and decompose(saved, now) is not None:
+                    jproj = fault.Project(dict(proj.files, **{victim: saved}), structured=proj.structured, use_cache=proj.use_cache,
+                                          extra=proj.extra, label=proj.label)
+            v, fired, fired_fail, states = judge(jproj, rec, box, cfg, built, expected, pre)
             if exdev:
                 # leftovers are in the foreign TMPDIR; every rename must have failed for real
                 real_fail = [o for o in rec.shim if o["kind"] == "rename" and o["errno"] == 18]
@@ -147,7 +168,7 @@ def work(job):
                 fired_fail = real_fail
                 fired = real_fail
         finally:
-            if tmpdir:
+            if tmpdir and os.path.isabs(tmpdir):
                 import shutil
                 shutil.rmtree(tmpdir, ignore_errors=True)
     if rec.timed_out:
@@ -194,7 +215,7 @@ def main(tier):
             jobs.append((built, pi, proj, expected, label, rules, kind, False))
         jobs.append((built, pi, proj, expected, "real-exdev-tmpdir", None, "exdev", True))
         for envlabel in ("tmpdir-non-utf8-name", "tmpdir-missing", "tmpdir-is-a-file", "tmpdir-with-spaces-and-unicode",
-                         "tmpdir-is-the-source-dir", "tmpdir-relative"):
+                         "tmpdir-is-the-source-dir", "tmpdir-relative", "tmpdir-empty-string"):
             jobs.append((built, pi, proj, expected, envlabel, "n=999999,act=delay:0", "env", False))
         # faults on the lock reservation / final lock write (generic clauses only) and an update fault followed by a stop signal
         lockops = [o for o in ops if fault.phase_of(o).startswith("lock-") and o["kind"] in ("openw", "write", "rename")]
@@ -205,6 +226,16 @@ def main(tier):
         for k in upd_ops[:: max(1, len(upd_ops) // 6)][:8]:
             jobs.append((built, pi, proj, expected, "errno+signal@%d" % k, "n=%d,act=errno:5;n=%d,act=sig:15" % (k, k + 2), "fault+signal", False))
             jobs.append((built, pi, proj, expected, "eintr@%d" % k, "n=%d,act=errno:4" % k, "transient", False))
+        # a concurrent save of one source while its scratch copy is being created (the n-th temp create is delayed by 400 ms)
+        last_read = None
+        nsave = 0
+        for o in ops:
+            if fault.phase_of(o) == "src-read-open":
+                last_read = o["path"].split("/proj/", 1)[-1]
+            elif fault.phase_of(o) == "tmp-create" and last_read in proj.files and nsave < 4:
+                # the file in hand (read already, scratch copy about to be created) is the one that gets saved
+                nsave += 1
+                jobs.append((built, pi, proj, expected, "concurrent-save@%d:%s" % (o["n"], last_read), "n=%d,act=delay:400" % o["n"], "concurrent-save", False))
         # the clean run itself: normal exit must leave no temporary file
         jobs.append((built, pi, proj, expected, "no-fault", "n=999999,act=delay:0", "clean", False))
     for res in frame.pmap(work, jobs, chunksize=4):
